@@ -30,7 +30,7 @@ package boltz
 //@   props C07
 //@   errflow
 //@   nosafety
-//@   modifies *
+//@   modifies *, ctxTx, ocCnt, ocFn, ocRecv
 
 //@ func (*DbImpl).Update
 //@   props C07
